@@ -40,6 +40,8 @@ CONSTANTS Actors,      \* goroutines
           StatBeforeLock, \* TRUE: "is there a record to load?" is decided (os.Stat) BEFORE the file lock is taken (seeded
                           \* defect c14-size-check-before-lock); FALSE: by Seek(0,2) on the locked, open file (code: FALSE)
           FreshUpdates,   \* TRUE: updates may run before anybody has created the record (first updates race on an absent file)
+          UnlinkLockWhenFinal, \* TRUE: UpdateFullStatus removes "status.lock" inside its critical section (seeded defect
+                          \* c14-lockfile-removed-when-final; the configuration stands for a record that is and stays final)
           TruncFirst   \* TRUE: UpdateFullStatus truncates, then writes (the code before its repair);
                        \* FALSE: writes the new record in place, then cuts the file to its length (code: FALSE)
 
@@ -74,9 +76,14 @@ VARIABLES
   doneBy,    \* ghost: [Actors -> Nat]
   torn,      \* ghost: [Actors -> BOOLEAN]  a completed read saw Empty
   lost,      \* ghost: BOOLEAN  a write was based on an older version than the one it replaced
-  sawRec     \* [Actors -> BOOLEAN]  result of the "size > 0" test of the running update
+  sawRec,    \* [Actors -> BOOLEAN]  result of the "size > 0" test of the running update
+  \* the lock is an flock on the INODE the name "status.lock" pointed to when the actor opened it (at the start of its
+  \* operation).  `lock` is the holder on the inode the name points to now; when the name is unlinked, the actors that
+  \* had already opened it (oldq) keep contending on the old inode (oldlock) while new arrivals create a fresh file.
+  oldlock,   \* None | actor   holder of the flock on the unlinked inode
+  oldq       \* set of actors bound to the unlinked inode
 
-vars == <<file, fver, lock, olock, mem, rver, pc, kind, left, done, doneBy, torn, lost, sawRec>>
+vars == <<file, fver, lock, olock, mem, rver, pc, kind, left, done, doneBy, torn, lost, sawRec, oldlock, oldq>>
 
 Init ==
   /\ file = Absent /\ fver = 0 /\ lock = None
@@ -90,6 +97,7 @@ Init ==
   /\ torn = [a \in Actors |-> FALSE]
   /\ lost = FALSE
   /\ sawRec = [a \in Actors |-> FALSE]
+  /\ oldlock = None /\ oldq = {}
 
 Created == fver > 0            \* Save has completed at least once: the unit is visible to others
 
@@ -104,12 +112,14 @@ ObjLock(a, next) ==
 
 FLock(a, from, to) ==
   /\ pc[a] = from
-  /\ lock = None
-  /\ lock' = a
+  /\ IF a \in oldq THEN oldlock = None /\ oldlock' = a /\ UNCHANGED lock
+                    ELSE lock = None /\ lock' = a /\ UNCHANGED oldlock
   /\ pc' = [pc EXCEPT ![a] = to]
 
 Release(a) ==   \* deferred unlockStatusFile, then statusLock.Unlock()
   /\ lock' = IF lock = a THEN None ELSE lock
+  /\ oldlock' = IF oldlock = a THEN None ELSE oldlock
+  /\ oldq' = oldq \ {a}
   /\ olock' = [olock EXCEPT ![ObjOf[a]] = None]
   /\ pc' = [pc EXCEPT ![a] = "idle"]
 
@@ -119,11 +129,11 @@ UFS_Begin(a, k) ==
   /\ ObjLock(a, "u_want")
   /\ kind' = [kind EXCEPT ![a] = k]
   /\ sawRec' = [sawRec EXCEPT ![a] = IsRec(file)]       \* (used only when StatBeforeLock)
-  /\ UNCHANGED <<file, fver, lock, mem, rver, done, doneBy, torn, lost>>
+  /\ UNCHANGED <<file, fver, lock, mem, rver, done, doneBy, torn, lost, oldlock, oldq>>
 
 UFS_Lock(a) ==
   /\ FLock(a, "u_want", "u_locked")
-  /\ UNCHANGED <<file, fver, olock, mem, rver, kind, left, done, doneBy, torn, lost, sawRec>>
+  /\ UNCHANGED <<file, fver, olock, mem, rver, kind, left, done, doneBy, torn, lost, sawRec, oldq>>
 
 \* size := Seek(0,2); if size > 0 { loadFromFile }  - an empty or new file keeps the in-memory copy
 \* m0 = the in-memory copy the object holds when nothing is loaded
@@ -134,7 +144,7 @@ UFS_ReadC(a, m0) ==
        THEN mem' = [mem EXCEPT ![ObjOf[a]] = file] /\ rver' = [rver EXCEPT ![a] = fver]
        ELSE mem' = [mem EXCEPT ![ObjOf[a]] = m0] /\ rver' = [rver EXCEPT ![a] = IF Reread /\ ~IsRec(file) THEN fver ELSE @]
   /\ pc' = [pc EXCEPT ![a] = "u_read"]
-  /\ UNCHANGED <<file, fver, lock, olock, kind, left, done, doneBy, torn, lost, sawRec>>
+  /\ UNCHANGED <<file, fver, lock, olock, kind, left, done, doneBy, torn, lost, sawRec, oldlock, oldq>>
 
 UFS_Read(a) == UFS_ReadC(a, mem[ObjOf[a]])
 
@@ -143,7 +153,7 @@ UFS_Apply(a, h) ==
   /\ pc[a] = "u_read"
   /\ mem' = [mem EXCEPT ![ObjOf[a]] = IF kind[a] = "inc" THEN SuccInc(@, a, h) ELSE SuccBlind(@, a, h)]
   /\ pc' = [pc EXCEPT ![a] = "u_applied"]
-  /\ UNCHANGED <<file, fver, lock, olock, rver, kind, left, done, doneBy, torn, lost, sawRec>>
+  /\ UNCHANGED <<file, fver, lock, olock, rver, kind, left, done, doneBy, torn, lost, sawRec, oldlock, oldq>>
 
 \* before the repair: file.Truncate(0) ahead of the write - the file is empty in between;
 \* since: file.Truncate(length of the new record) after the write - a stale tail behind the first JSON value is cut,
@@ -151,7 +161,14 @@ UFS_Apply(a, h) ==
 UFS_Trunc(a) ==
   /\ IF TruncFirst THEN pc[a] = "u_applied" /\ file' = Empty /\ pc' = [pc EXCEPT ![a] = "u_truncd"]
                    ELSE pc[a] = "u_wrote" /\ UNCHANGED file /\ pc' = [pc EXCEPT ![a] = "u_written"]
-  /\ UNCHANGED <<fver, lock, olock, mem, rver, kind, left, done, doneBy, torn, lost, sawRec>>
+  \* seeded: os.Remove(status.lock) here, still inside the section.  The actors that are blocked on the lock have opened
+  \* the old inode and stay on it - with the holder - while the name is free for anybody who arrives from now on.
+  \* (one unlinked generation at a time is modelled)
+  /\ IF UnlinkLockWhenFinal /\ ~TruncFirst /\ lock = a /\ oldlock = None /\ oldq = {}
+       THEN /\ lock' = None /\ oldlock' = a
+            /\ oldq' = {b \in Actors : pc[b] \in {"u_want", "l_want", "s_want"}}
+       ELSE UNCHANGED <<lock, oldlock, oldq>>
+  /\ UNCHANGED <<fver, olock, mem, rver, kind, left, done, doneBy, torn, lost, sawRec>>
 
 \* saveToFile(file)
 UFS_Write(a) ==
@@ -161,9 +178,9 @@ UFS_Write(a) ==
   /\ lost' = (lost \/ rver[a] # fver)
   /\ IF kind[a] = "inc"
        THEN done' = done + 1 /\ doneBy' = [doneBy EXCEPT ![a] = @ + 1]
-       ELSE UNCHANGED <<done, doneBy, sawRec>>
+       ELSE UNCHANGED <<done, doneBy, sawRec, oldlock, oldq>>
   /\ pc' = [pc EXCEPT ![a] = IF TruncFirst THEN "u_written" ELSE "u_wrote"]
-  /\ UNCHANGED <<lock, olock, mem, rver, kind, left, torn, sawRec>>
+  /\ UNCHANGED <<lock, olock, mem, rver, kind, left, torn, sawRec, oldlock, oldq>>
 
 UFS_Unlock(a) ==
   /\ pc[a] = "u_written"
@@ -173,12 +190,12 @@ UFS_Unlock(a) ==
 \* ---------------------------------------------------------------- Load
 Load_Begin(a) ==
   /\ ObjLock(a, "l_want")
-  /\ UNCHANGED <<file, fver, lock, mem, rver, kind, done, doneBy, torn, lost, sawRec>>
+  /\ UNCHANGED <<file, fver, lock, mem, rver, kind, done, doneBy, torn, lost, sawRec, oldlock, oldq>>
 
 Load_Lock(a) ==
   /\ IF LoadLocks THEN FLock(a, "l_want", "l_locked")
-                  ELSE pc[a] = "l_want" /\ pc' = [pc EXCEPT ![a] = "l_locked"] /\ UNCHANGED lock
-  /\ UNCHANGED <<file, fver, olock, mem, rver, kind, left, done, doneBy, torn, lost, sawRec>>
+                  ELSE pc[a] = "l_want" /\ pc' = [pc EXCEPT ![a] = "l_locked"] /\ UNCHANGED <<lock, oldlock>>
+  /\ UNCHANGED <<file, fver, olock, mem, rver, kind, left, done, doneBy, torn, lost, sawRec, oldq>>
 
 \* os.Open + ReadAll + Unmarshal: ENOENT when Absent (an error, not a torn read), parse error when Empty
 Load_Read(a) ==
@@ -186,7 +203,7 @@ Load_Read(a) ==
   /\ IF IsRec(file) THEN mem' = [mem EXCEPT ![ObjOf[a]] = file] ELSE UNCHANGED mem
   /\ torn' = [torn EXCEPT ![a] = @ \/ file = Empty]
   /\ pc' = [pc EXCEPT ![a] = "l_read"]
-  /\ UNCHANGED <<file, fver, lock, olock, rver, kind, left, done, doneBy, lost, sawRec>>
+  /\ UNCHANGED <<file, fver, lock, olock, rver, kind, left, done, doneBy, lost, sawRec, oldlock, oldq>>
 
 Load_Unlock(a) ==
   /\ pc[a] = "l_read"
@@ -196,29 +213,29 @@ Load_Unlock(a) ==
 \* ---------------------------------------------------------------- Save (AllocateUnit: before the unit is visible)
 Save_Enter(a) ==
   /\ ObjLock(a, "s_want")      \* (read side of statusLock in the code; the creator is alone on its object)
-  /\ UNCHANGED <<file, fver, lock, mem, rver, kind, done, doneBy, torn, lost, sawRec>>
+  /\ UNCHANGED <<file, fver, lock, mem, rver, kind, done, doneBy, torn, lost, sawRec, oldlock, oldq>>
 
 \* A Save is a blind write: the design uses it only to create the record, before the unit is visible.
 Save_Begin(a) == a = Creator /\ ~Created /\ Save_Enter(a)
 
 Save_Lock(a) ==
   /\ IF SaveLocks THEN FLock(a, "s_want", "s_locked")
-                  ELSE pc[a] = "s_want" /\ pc' = [pc EXCEPT ![a] = "s_locked"] /\ UNCHANGED lock
-  /\ UNCHANGED <<file, fver, olock, mem, rver, kind, left, done, doneBy, torn, lost, sawRec>>
+                  ELSE pc[a] = "s_want" /\ pc' = [pc EXCEPT ![a] = "s_locked"] /\ UNCHANGED <<lock, oldlock>>
+  /\ UNCHANGED <<file, fver, olock, mem, rver, kind, left, done, doneBy, torn, lost, sawRec, oldq>>
 
 \* os.OpenFile(O_CREATE|O_WRONLY|O_TRUNC)
 Save_Trunc(a) ==
   /\ pc[a] = "s_locked"
   /\ file' = Empty
   /\ pc' = [pc EXCEPT ![a] = "s_truncd"]
-  /\ UNCHANGED <<fver, lock, olock, mem, rver, kind, left, done, doneBy, torn, lost, sawRec>>
+  /\ UNCHANGED <<fver, lock, olock, mem, rver, kind, left, done, doneBy, torn, lost, sawRec, oldlock, oldq>>
 
 Save_WriteC(a, c) ==
   /\ pc[a] = "s_truncd"
   /\ file' = c
   /\ fver' = fver + 1
   /\ pc' = [pc EXCEPT ![a] = "s_written"]
-  /\ UNCHANGED <<lock, olock, mem, rver, kind, left, done, doneBy, torn, lost, sawRec>>
+  /\ UNCHANGED <<lock, olock, mem, rver, kind, left, done, doneBy, torn, lost, sawRec, oldlock, oldq>>
 
 Save_Write(a) == Save_WriteC(a, mem[ObjOf[a]])
 
